@@ -98,6 +98,7 @@ class Prober:
             self.c = self.srv.client(timeout=20)
             seed_all(self.c)
             self.base = sentinel_dump(self.c)
+            self._bystanders()
         except (Closed, Timeout, OSError) as e:
             time.sleep(0.3)
             err = self.srv.stderr_text()
@@ -108,6 +109,34 @@ class Prober:
             else:
                 self.res.violation("hang/seeding", "(%s build) server stopped answering while the sentinel dataset was being written: %r" % (self.profile, e))
             raise SeedingFailed()
+
+    def _bystanders(self):
+        """Other clients in the states a server normally has around while a hostile input arrives: a
+        subscriber to channels and patterns (incl. the empty channel name), a client parked in a
+        blocking pop, a client holding a WATCH inside MULTI. Many inputs only go wrong when such a
+        client exists (a PUBLISH needs a subscriber to reach the matcher)."""
+        for b in getattr(self, "by", []):
+            b.close()
+        self.by = []
+        sub = self.srv.client(timeout=6)
+        sub.send_raw(resp.encode([b"SUBSCRIBE", b"c:chan", b"", b"c:tmp"]) +
+                     resp.encode([b"PSUBSCRIBE", b"news.*", b"*", b"h?llo", b"[ab]*", b"c:*", b"\\*", b"a\\[b"]))
+        blk = self.srv.client(timeout=6)
+        blk.send_raw(resp.encode([b"BLPOP", b"c:never", b"c:never2", b"0"]))
+        wat = self.srv.client(timeout=6)
+        wat.send_raw(resp.encode([b"WATCH", b"c:tmp", b"c:str"]) + resp.encode([b"MULTI"]) + resp.encode([b"GET", b"c:str"]))
+        self.by = [sub, blk, wat]
+        time.sleep(0.02)
+        self.drain_bystanders()
+
+    def drain_bystanders(self):
+        for b in getattr(self, "by", []):
+            try:
+                b.buf.clear()
+                b.drain_raw(0.0)
+                b.buf.clear()
+            except Exception:
+                pass
 
     def restart(self):
         self.srv.restart()
@@ -125,6 +154,21 @@ class Prober:
                 if not self.srv.alive():
                     return False
         return False
+
+    def attempt_on_new_connection(self, argv):
+        """One command from a throw-away connection (the probing one is busy being something else)."""
+        keep = self.c
+        try:
+            self.c = self.srv.client(timeout=6)
+            ok = self.attempt(argv, "aux/%s" % argv[0].decode("latin1"), "aux")
+            try:
+                self.c.close()
+            except Exception:
+                pass
+        except OSError:
+            ok = False
+        self.c = keep
+        return ok
 
     def attempt(self, argv, label, cls):
         """Run one hostile command; returns False if the server had to be restarted."""
@@ -195,8 +239,11 @@ class Prober:
             seed_all(self.c, big=False)
             self.base = sentinel_dump(self.c)
         self.res.count("sentinel_checks")
+        self.drain_bystanders()
 
     def close(self):
+        for b in getattr(self, "by", []):
+            b.close()
         self.srv.cleanup()
 
 
@@ -429,6 +476,67 @@ def blocked_scenarios(p):
     p.check_sentinels("blocked-scenarios")
 
 
+def pubsub_hostile(p):
+    """Channel names, patterns and payloads at their edges while subscribers of both kinds exist
+    (the bystander subscribes to channels and to patterns that start with literals, wildcards,
+    classes and escapes)."""
+    res = p.res
+    names = [b"", b"\x00", b"*", b"?", b"[", b"]", b"[]", b"[^", b"[a-", b"\\", b"\\\\", b"a\\", b"news.", b"n", b"hello", b"h\xffllo", b"c:chan",
+             b"x" * 65536, b"[" * 300, b"*" * 300 + b"b", b"\r\n", b" "]
+    for nm in names:
+        for argv in ([b"PUBLISH", nm, b"payload"], [b"PUBLISH", b"c:chan", nm], [b"PSUBSCRIBE", nm], [b"SUBSCRIBE", nm],
+                     [b"PUBSUB", b"CHANNELS", nm], [b"PUBSUB", b"NUMSUB", nm]):
+            p.attempt(argv, "pubsub/%s" % argv[0].decode(), "pubsub-edge")
+            if argv[0] in (b"PSUBSCRIBE", b"SUBSCRIBE"):
+                # the probing connection is a subscriber now: publish to what it subscribed, then start over
+                p.attempt_on_new_connection([b"PUBLISH", nm if argv[0] == b"SUBSCRIBE" else b"news.x", b"to-the-new-subscriber"])
+                try:
+                    p.c.close()
+                    p.c = p.srv.client(timeout=6)
+                except OSError:
+                    p.restart()
+    p.check_sentinels("pubsub-hostile")
+
+
+def non_reading_client(p):
+    """A client that asks for far more reply bytes than the socket buffers hold and does not read
+    them. Its replies may wait; every other client must keep being served."""
+    res = p.res
+    for n, what in ((300, [b"GET", b"c:big1m"]), (50, [b"LRANGE", b"c:biglist", b"0", b"-1"])):
+        res.evaluations += 1
+        t = None
+        try:
+            p.c.cmd("SET", "c:big1m", b"v" * (1 << 20))
+            t = p.srv.client(timeout=6)
+            t.sock.settimeout(0.5)
+            try:
+                t.send_raw(b"".join(resp.encode(what) for _ in range(n)))
+            except (OSError, Closed):
+                pass
+            time.sleep(0.3)
+            healthy = p.healthy(watchdog=10.0)
+        finally:
+            if t is not None:
+                t.close()
+        res.cell("flood", "non-reading-client", what[0].decode())
+        if not p.srv.alive():
+            err = p.srv.stderr_text()
+            res.violation("crash/non-reading-client/%s" % first_ferrous_frame(err[-6000:]),
+                          "(%s build) server exited %s while a client that does not read had %d x %s outstanding\n%s" % (
+                              p.profile, p.srv.exit_status(), n, resp.show(what, 30), err[-1200:]))
+            p.restart()
+        elif not healthy:
+            res.violation("hang/non-reading-client", "while one client had %d x %s outstanding and was not reading, PING on a new connection went unanswered for 10 s (retried)" % (
+                n, resp.show(what, 30)))
+            p.srv.kill()
+            p.restart()
+        try:
+            p.c.cmd("DEL", "c:big1m")
+        except (Closed, Timeout, OSError):
+            p.restart()
+    p.check_sentinels("non-reading-client")
+
+
 def connection_flood(p):
     """More connections than the process may hold descriptors for. The descriptor limit is the
     deployment's (commonly 1024 against a default maxclients of 10000); here it is lowered on
@@ -630,6 +738,10 @@ def worker(shard, binary, nshards, tier, seed, profile, extra_env=None):
             blocked_scenarios(p)
         if shard == 4 % nshards:
             connection_flood(p)
+        if shard == 5 % nshards:
+            non_reading_client(p)
+        if shard == 6 % nshards:
+            pubsub_hostile(p)
     except SeedingFailed:
         pass
     finally:
